@@ -551,7 +551,7 @@ def compare_run(run, owned):
                 allowed = {REFUSAL_STATUS[d] for d in defects}
                 if ih and mh and ih.get('status') in allowed and mh.get('status') in allowed:
                     tags = []
-            opn = r.op if r.op in ('av', 'gcv', 'as', 'gs') else 'other'
+            opn = r.op if r.op in ('av', 'gcv', 'as', 'gs') else ((r.meta or {}).get('route') if (r.meta or {}).get('route') in ('av', 'gcv', 'as', 'gs') else 'other')
             tags = [t + '.' + opn if t.startswith('http.') else t for t in tags]
         else:
             tags = [] if r.i_out == r.m_out else tags_of_diff(r)
